@@ -41,13 +41,76 @@ pub fn gen_json(r: &mut Rng) -> String {
       0 => ms.push(format!("{{\"from\":{},\"to\":{}{}{}}}", gen_keylist(r, &aliases, 3), gen_keylist(r, &aliases, 3), gen_repeat(r, false),
                            if r.below(3) == 0 { format!(",\"absorbing\":{}", gen_keylist(r, &aliases, 2)) } else { String::new() })),
       1 => ms.push(format!("{{\"from\":{},\"repeat\":\"{}\"}}", gen_keylist(r, &aliases, 3), ["Disabled", "Normal"][r.below(2)])),
-      2 => { let rows = ["`", "1", "Q", "A", "Z", "q", "X"]; let letters = ["abc", "a b", "ABCDEFGHIJKLMNOPQRST", "é", "", "~!@"];
+      2 => { let rows = ["`", "1", "Q", "A", "Z", "q", "X"]; let letters = ["abc", "a b", "ABCDEFGHIJKLMNOPQRST", "é", "", "~!@", "a b c d e f", "          x", "abcdefghij  k", "q w e r t y u", " a  b  c  d  e", "abcdefghijk l", "            m"];
              let mods = if r.below(2) == 0 { String::new() } else { format!("\"{}\",", ["@x", "LEFTSHIFT", "RIGHTSHIFT", "@undefined"][r.below(4)]) };
-             ms.push(format!("{{\"from\":[{}{{\"row\":\"{}\"}}],\"to\":[{}{{\"letters\":\"{}\"}}]{}}}", mods, rows[r.below(7)], if r.below(3) == 0 { "\"@x\"," } else { "" }, letters[r.below(6)], gen_repeat(r, true))); },
+             ms.push(format!("{{\"from\":[{}{{\"row\":\"{}\"}}],\"to\":[{}{{\"letters\":\"{}\"}}]{}}}", mods, rows[r.below(7)], if r.below(3) == 0 { "\"@x\"," } else { "" }, letters[r.below(13)], gen_repeat(r, true))); },
       _ => ms.push(format!("{{\"from\":\"{}\",\"to\":\"{}\"}}", KEYS[r.below(8)], KEYS[r.below(8)])),
     }
   }
   format!("{{\"mappings\":[{}]}}", ms.join(","))
+}
+
+
+// structure-aware mutation of a layout (C14's quantifier: wrong types, missing or extra fields, empty arrays, repeated keys, misplaced aliases, extreme numbers)
+fn rand_atom(r: &mut Rng) -> serde_json::Value { use serde_json::json; match r.below(16) {
+  0 => json!(null), 1 => json!(true), 2 => json!(0), 3 => json!(-1), 4 => json!(1e300), 5 => json!(18446744073709551615u64), 6 => json!(""), 7 => json!([]), 8 => json!({}), 9 => json!([[]]),
+  10 => json!("@x"), 11 => json!("NOSUCHKEY"), 12 => json!({"row": "Q"}), 13 => json!({"letters": "a  b"}), 14 => json!({"row": "nosuchrow"}), _ => json!(KEYS[r.below(8)]) } }
+fn rand_letters(r: &mut Rng) -> String {
+  let alpha: Vec<char> = "abcdexyzABC12;,./~! \u{e9}".chars().collect();
+  let n = r.below(18); let spaces = r.below(4);
+  (0..n).map(|_| if r.below(4) < spaces { ' ' } else { alpha[r.below(alpha.len())] }).collect()
+}
+fn count_nodes(v: &serde_json::Value) -> usize { 1 + match v { serde_json::Value::Array(a) => a.iter().map(count_nodes).sum::<usize>(), serde_json::Value::Object(o) => o.values().map(count_nodes).sum::<usize>(), _ => 0 } }
+fn mutate_at(v: &mut serde_json::Value, idx: &mut usize, r: &mut Rng) -> bool {
+  use serde_json::Value as V;
+  if *idx == 0 {
+    let op = r.below(6);
+    match v {
+      V::Array(a) if op < 4 && !a.is_empty() => { let i = r.below(a.len()); match op { 0 => { let e = a[i].clone(); a.insert(r.below(a.len() + 1), e); }, 1 => { a.remove(i); }, 2 => { a.clear(); }, _ => { let j = r.below(a.len()); a.swap(i, j); } } },
+      V::Object(o) if op < 4 && !o.is_empty() => { let keys: Vec<String> = o.keys().cloned().collect(); let k = keys[r.below(keys.len())].clone(); match op {
+        0 => { o.remove(&k); }, 1 => { o.insert(["extra", "from", "to", "repeat", "absorbing", "row", "letters", "Special"][r.below(8)].to_string(), rand_atom(r)); },
+        2 => { if let Some(x) = o.remove(&k) { o.insert(["From", "to", "from", "letters", "row"][r.below(5)].to_string(), x); } }, _ => { let x = rand_atom(r); o.insert(k, x); } } },
+      V::String(s) if op < 4 => { *s = match op { 0 => rand_letters(r), 1 => ["@x", "@y", "@undefined", "", " ", "\u{0}"][r.below(6)].to_string(), 2 => KEYS[r.below(8)].to_string(), _ => format!("{}{}", s, s) }; },
+      V::Number(_) if op < 4 => { *v = [serde_json::json!(-1), serde_json::json!(0), serde_json::json!(4294967296u64), serde_json::json!(0.5), serde_json::json!(i64::MIN), serde_json::json!(u64::MAX)][r.below(6)].clone(); },
+      _ => { *v = rand_atom(r); },
+    }
+    return true;
+  }
+  *idx -= 1;
+  match v {
+    V::Array(a) => { for e in a.iter_mut() { if mutate_at(e, idx, r) { return true; } } false },
+    V::Object(o) => { for (_, e) in o.iter_mut() { if mutate_at(e, idx, r) { return true; } } false },
+    _ => false,
+  }
+}
+pub fn gen_mutated_json(r: &mut Rng) -> String {
+  let base = match r.below(3) { 0 => gen_json(r), 1 => program_json(&gen_program(r)), _ => gen_json(r).replace("\"letters\":\"abc\"", &format!("\"letters\":{:?}", rand_letters(r))) };
+  let mut v: serde_json::Value = match serde_json::from_str(&base) { Ok(v) => v, Err(_) => return base };
+  for _ in 0..(1 + r.below(3)) { let n = count_nodes(&v); let mut i = r.below(n); mutate_at(&mut v, &mut i, r); }
+  serde_json::to_string(&v).unwrap()
+}
+
+/// a key history that fires every Special-repeat mapping of the layout: its trigger keys pressed in listed order, then released; then a few random events
+fn special_history(l: &Layout, seed: u64) -> Vec<Event> {
+  let mut r = Rng(seed | 1); let mut h: Vec<Event> = Vec::new(); let mut down: Vec<KeyCode> = Vec::new();
+  for m in l.mappings.iter() { if let Repeat::Special { .. } = m.repeat { for k in &m.from { if !down.contains(k) { down.push(*k); h.push(Event::Pressed(*k)); } } while let Some(k) = down.pop() { h.push(Event::Released(k)); } } }
+  for _ in 0..6 { let k = EV_KEYS[r.below(EV_KEYS.len())]; h.push(if r.below(2) == 0 { Event::Pressed(k) } else { Event::Released(k) }); }
+  h
+}
+/// C11 through the loader ("the loop waits for at most delay_ms ... once per interval_ms"): on a layout FILE that loading accepts, the longest time-out the real
+/// loop asks for must not exceed the largest delay / interval any Special repeat of the file names (1 ms at least: an overdue tick waits 1 ms)
+pub fn check_c11_file(text: &str, seed: u64) -> Result<(), String> {
+  let layout = match std::panic::catch_unwind({ let t = text.to_string(); move || load(&t) }) { Ok(Ok(l)) => l, _ => return Ok(()) };
+  let mut bound_ms: i64 = 1; let mut any = false;
+  for m in &layout.mappings { if let Repeat::Special { delay_ms, interval_ms, .. } = &m.repeat { any = true; bound_ms = bound_ms.max(*delay_ms as i64).max(*interval_ms as i64); } }
+  if !any { return Ok(()); }
+  let l2 = layout.clone();
+  let ran = std::panic::catch_unwind(move || { let h = special_history(&l2, seed); crate::remapping_loop::run_plain(&l2, &h) });
+  match ran {
+    Ok((_, Some(t))) if t > std::time::Duration::from_millis(bound_ms as u64) => Err(format!("the loop asked to wait {:?}; the longest delay_ms / interval_ms in the accepted file is {} ms (repeat values of the loaded layout: {:?})", t, bound_ms,
+      layout.mappings.iter().filter_map(|m| if let Repeat::Special { delay_ms, interval_ms, .. } = &m.repeat { Some((*delay_ms, *interval_ms)) } else { None }).collect::<Vec<_>>())),
+    _ => Ok(()),
+  }
 }
 
 /// C14 on one input: Ok(()) unless something panics; Err(description) names where
@@ -62,7 +125,14 @@ pub fn check_c14(text: &str, seed: u64) -> Result<(), String> {
     for _ in 0..30 { let k = EV_KEYS[r.below(EV_KEYS.len())]; let e = if r.below(2) == 0 { Event::Pressed(k) } else { Event::Released(k) }; m.step(e); }
     m.release_all();
   });
-  match ran { Ok(()) => Ok(()), Err(_) => Err(format!("loading accepted the layout ({} mappings) but installing it in the mapper / driving it with key events panicked", layout.mappings.len())) }
+  if ran.is_err() { return Err(format!("loading accepted the layout ({} mappings) but installing it in the mapper / driving it with key events panicked", layout.mappings.len())); }
+  // ... and through the real per-device loop (plain driver): the repeat values of an accepted layout enter its wake-up arithmetic
+  if layout.mappings.iter().any(|m| matches!(m.repeat, Repeat::Special { .. })) {
+    let l3 = layout.clone();
+    let ran = std::panic::catch_unwind(move || { let h = special_history(&l3, seed); crate::remapping_loop::run_plain(&l3, &h) });
+    if ran.is_err() { return Err(format!("loading accepted the layout ({} mappings) but running it through the per-device loop panicked", layout.mappings.len())); }
+  }
+  Ok(())
 }
 
 /// C13, combination clause: a single mapping whose trigger has n alias modifiers (d_i single-key definitions each) must expand to exactly the
@@ -103,9 +173,22 @@ pub fn check_c13(defs: &Vec<Vec<KeyCode>>, key: KeyCode, out: KeyCode) -> Result
 #[derive(Clone, Debug)] pub enum PMod { Alias(usize), Key(KeyCode) }
 #[derive(Clone, Debug)] pub enum PItem {
   AliasDef { name: usize, keys: Vec<KeyCode> },
-  Single { mods: Vec<PMod>, key: KeyCode, to_mods: Vec<PMod>, to_key: KeyCode, disabled: bool },
-  Row { mods: Vec<PMod>, row: usize, to_mods: Vec<PMod>, letters: String, disabled: bool },
-  RepeatOnly { mods: Vec<PMod>, key: KeyCode, disabled: bool },
+  Single { mods: Vec<PMod>, key: KeyCode, to_mods: Vec<PMod>, to_key: KeyCode, disabled: bool, x: PExtra },
+  Row { mods: Vec<PMod>, row: usize, to_mods: Vec<PMod>, letters: String, disabled: bool, x: PExtra },
+  RepeatOnly { mods: Vec<PMod>, key: KeyCode, disabled: bool, x: PExtra },
+}
+/// the other repeat form and the absorbing list: a Special repeat (modifiers, then a key - or, for a row, letters by column) overrides `disabled`
+#[derive(Clone, Debug, Default)] pub struct PExtra { pub special: Option<PSpec>, pub absorbing: Vec<PMod> }
+#[derive(Clone, Debug)] pub struct PSpec { pub mods: Vec<PMod>, pub key: KeyCode, pub letters: String, pub delay: i32, pub interval: i32 }
+fn jrepeat(x: &PExtra, disabled: bool, row: bool, always: bool) -> String {
+  let mut s = String::new();
+  match &x.special {
+    Some(sp) => { let mut k = jmods(&sp.mods); k.push(if row { format!("{{\"letters\":{}}}", serde_json::to_string(&sp.letters).unwrap()) } else { format!("\"{:?}\"", sp.key) });
+                  s.push_str(&format!(",\"repeat\":{{\"Special\":{{\"keys\":[{}],\"delay_ms\":{},\"interval_ms\":{}}}}}", k.join(","), sp.delay, sp.interval)); },
+    None => { if disabled { s.push_str(",\"repeat\":\"Disabled\""); } else if always { s.push_str(",\"repeat\":\"Normal\""); } },
+  }
+  if !x.absorbing.is_empty() { s.push_str(&format!(",\"absorbing\":[{}]", jmods(&x.absorbing).join(","))); }
+  s
 }
 const ANAMES: [&str; 3] = ["@p", "@q", "@r"];
 const ROWNAMES: [&str; 5] = ["`", "1", "Q", "A", "Z"];
@@ -125,11 +208,11 @@ pub fn program_json(p: &Vec<PItem>) -> String {
   let mut ms: Vec<String> = Vec::new();
   for it in p { match it {
     PItem::AliasDef { name, keys } => ms.push(format!("{{\"from\":[{}],\"to\":\"{}\"}}", keys.iter().map(|k| format!("\"{:?}\"", k)).collect::<Vec<_>>().join(","), ANAMES[*name])),
-    PItem::Single { mods, key, to_mods, to_key, disabled } => { let mut f = jmods(mods); f.push(format!("\"{:?}\"", key)); let mut t = jmods(to_mods); t.push(format!("\"{:?}\"", to_key));
-      ms.push(format!("{{\"from\":[{}],\"to\":[{}]{}}}", f.join(","), t.join(","), if *disabled { ",\"repeat\":\"Disabled\"" } else { "" })); },
-    PItem::Row { mods, row, to_mods, letters, disabled } => { let mut f = jmods(mods); f.push(format!("{{\"row\":\"{}\"}}", ROWNAMES[*row])); let mut t = jmods(to_mods); t.push(format!("{{\"letters\":{}}}", serde_json::to_string(letters).unwrap()));
-      ms.push(format!("{{\"from\":[{}],\"to\":[{}]{}}}", f.join(","), t.join(","), if *disabled { ",\"repeat\":\"Disabled\"" } else { "" })); },
-    PItem::RepeatOnly { mods, key, disabled } => { let mut f = jmods(mods); f.push(format!("\"{:?}\"", key)); ms.push(format!("{{\"from\":[{}],\"repeat\":\"{}\"}}", f.join(","), if *disabled { "Disabled" } else { "Normal" })); },
+    PItem::Single { mods, key, to_mods, to_key, disabled, x } => { let mut f = jmods(mods); f.push(format!("\"{:?}\"", key)); let mut t = jmods(to_mods); t.push(format!("\"{:?}\"", to_key));
+      ms.push(format!("{{\"from\":[{}],\"to\":[{}]{}}}", f.join(","), t.join(","), jrepeat(x, *disabled, false, false))); },
+    PItem::Row { mods, row, to_mods, letters, disabled, x } => { let mut f = jmods(mods); f.push(format!("{{\"row\":\"{}\"}}", ROWNAMES[*row])); let mut t = jmods(to_mods); t.push(format!("{{\"letters\":{}}}", serde_json::to_string(letters).unwrap()));
+      ms.push(format!("{{\"from\":[{}],\"to\":[{}]{}}}", f.join(","), t.join(","), jrepeat(x, *disabled, true, false))); },
+    PItem::RepeatOnly { mods, key, disabled, x } => { let mut f = jmods(mods); f.push(format!("\"{:?}\"", key)); ms.push(format!("{{\"from\":[{}]{}}}", f.join(","), jrepeat(x, *disabled, false, true))); },
   } }
   format!("{{\"mappings\":[{}]}}", ms.join(","))
 }
@@ -153,20 +236,41 @@ pub fn expand_by_hand(p: &Vec<PItem>) -> Option<Vec<Mapping>> {
   let mut res: Vec<Mapping> = Vec::new();
   for it in p { match it {
     PItem::AliasDef { keys, .. } => { if !(keys.len() == 1 && is_mod_key(keys[0])) { res.push(Mapping { from: keys.clone(), to: vec![], repeat: Repeat::Normal, absorbing: vec![] }); } },
-    PItem::Single { mods, key, to_mods, to_key, disabled } => { for c in combos(mods)? { let mut f = trig(mods, &c); f.push(*key); let mut t = outm(mods, to_mods, &c)?; t.push(*to_key);
-      res.push(Mapping { from: f, to: t, repeat: if *disabled { Repeat::Disabled } else { Repeat::Normal }, absorbing: vec![] }); } },
-    PItem::Row { mods, row, to_mods, letters, disabled } => { let prow = qrow(*row); for c in combos(mods)? { let fm = trig(mods, &c); let tm = outm(mods, to_mods, &c)?; let rs = fm.contains(&KeyCode::RIGHTSHIFT);
+    // a Special repeat names its keys like an output: modifiers (aliases stand for the trigger-side choice), then the key
+    PItem::Single { mods, key, to_mods, to_key, disabled, x } => { for c in combos(mods)? { let mut f = trig(mods, &c); f.push(*key); let mut t = outm(mods, to_mods, &c)?; t.push(*to_key);
+      let repeat = match &x.special { Some(sp) => { let mut k = outm(mods, &sp.mods, &c)?; k.push(sp.key); Repeat::Special { keys: k, delay_ms: sp.delay, interval_ms: sp.interval } }, None => if *disabled { Repeat::Disabled } else { Repeat::Normal } };
+      res.push(Mapping { from: f, to: t, repeat, absorbing: outm(mods, &x.absorbing, &c)? }); } },
+    // ... and for a row the repeat letters go by column like the output letters: a column without repeat letter (or with a space) repeats normally; more repeat letters than output letters has no meaning
+    PItem::Row { mods, row, to_mods, letters, disabled, x } => { let prow = qrow(*row);
+      if let Some(sp) = &x.special { if sp.letters.chars().count() > letters.chars().count() { return None; } }
+      for c in combos(mods)? { let fm = trig(mods, &c); let tm = outm(mods, to_mods, &c)?; let rs = fm.contains(&KeyCode::RIGHTSHIFT);
+      let rm = match &x.special { Some(sp) => Some(outm(mods, &sp.mods, &c)?), None => None };
       for (i, ch) in letters.chars().enumerate() { if i >= prow.len() { return None; } if ch == ' ' { continue; } let (sh, k) = qchar(ch)?;
         let mut f = fm.clone(); f.push(prow[i]); let mut t = tm.clone(); if sh { t.push(if rs { KeyCode::RIGHTSHIFT } else { KeyCode::LEFTSHIFT }); } t.push(k);
-        res.push(Mapping { from: f, to: t, repeat: if *disabled { Repeat::Disabled } else { Repeat::Normal }, absorbing: vec![] }); } } },
+        let repeat = match &x.special {
+          Some(sp) => match sp.letters.chars().nth(i) { None | Some(' ') => Repeat::Normal, Some(rc) => { let (rsh, rk) = qchar(rc)?; let mut ks = rm.clone().unwrap(); if rsh { ks.push(if rs { KeyCode::RIGHTSHIFT } else { KeyCode::LEFTSHIFT }); } ks.push(rk);
+                                                          Repeat::Special { keys: ks, delay_ms: sp.delay, interval_ms: sp.interval } } },
+          None => if *disabled { Repeat::Disabled } else { Repeat::Normal } };
+        res.push(Mapping { from: f, to: t, repeat, absorbing: outm(mods, &x.absorbing, &c)? }); } } },
     PItem::RepeatOnly { .. } => {},
   } }
   let n_main = res.len();
   let tset = |f: &Vec<KeyCode>| -> (Vec<KeyCode>, KeyCode) { let mut a: Vec<KeyCode> = f[..f.len() - 1].to_vec(); a.sort(); (a, *f.last().unwrap()) };
-  for it in p { if let PItem::RepeatOnly { mods, key, disabled } = it { for c in combos(mods)? { let mut f = trig(mods, &c); f.push(*key); let rp = if *disabled { Repeat::Disabled } else { Repeat::Normal };
+  for it in p { if let PItem::RepeatOnly { mods, key, disabled, x } = it { for c in combos(mods)? { let mut f = trig(mods, &c); f.push(*key);
+    let rp = match &x.special { Some(sp) => { let mut k = outm(mods, &sp.mods, &c)?; k.push(sp.key); Repeat::Special { keys: k, delay_ms: sp.delay, interval_ms: sp.interval } }, None => if *disabled { Repeat::Disabled } else { Repeat::Normal } };
     let mut hit = false; for m in res[..n_main].iter_mut() { if !m.from.is_empty() && tset(&m.from) == tset(&f) { m.repeat = rp.clone(); hit = true; } }
     if !hit { res.push(Mapping { from: f.clone(), to: f, repeat: rp, absorbing: vec![] }); } } } }
   Some(res)
+}
+fn gen_extra(r: &mut Rng, mods: &Vec<PMod>, keypool: &[KeyCode], row: bool) -> PExtra {
+  let mut x = PExtra::default();
+  let sub = |r: &mut Rng| -> Vec<PMod> { let mut v: Vec<PMod> = mods.iter().filter(|_| r.below(2) == 0).cloned().collect(); if r.below(8) == 0 { v.push(PMod::Key(KeyCode::RIGHTALT)); } v };
+  if r.below(3) == 0 {
+    let letters = if row { ["a", "ab", "x y", "Q", "", "abcd", " ;", "zzzzzz"][r.below(8)].to_string() } else { String::new() };
+    x.special = Some(PSpec { mods: sub(r), key: keypool[r.below(keypool.len())], letters, delay: [0, 100, 250][r.below(3)], interval: [0, 30][r.below(2)] });
+  }
+  if r.below(4) == 0 { x.absorbing = sub(r); }
+  x
 }
 pub fn gen_program(r: &mut Rng) -> Vec<PItem> {
   use KeyCode::*;
@@ -180,9 +284,9 @@ pub fn gen_program(r: &mut Rng) -> Vec<PItem> {
     let mods = gen_mods(r, nal.min(3));
     let to_mods: Vec<PMod> = mods.iter().filter(|_| r.below(2) == 0).cloned().collect();
     match r.below(4) {
-      0 | 1 => p.push(PItem::Single { mods, key: keypool[r.below(keypool.len())], to_mods, to_key: keypool[r.below(keypool.len())], disabled: r.below(3) == 0 }),
-      2 => { let letters = ["abc", "a b", "aB", "Hello", "~!", "q", " x", "[]", "xyz?", "1+2"][r.below(10)].to_string(); p.push(PItem::Row { mods, row: r.below(5), to_mods, letters, disabled: r.below(3) == 0 }) },
-      _ => p.push(PItem::RepeatOnly { mods, key: keypool[r.below(keypool.len())], disabled: r.below(2) == 0 }),
+      0 | 1 => { let x = gen_extra(r, &mods, &keypool, false); p.push(PItem::Single { mods, key: keypool[r.below(keypool.len())], to_mods, to_key: keypool[r.below(keypool.len())], disabled: r.below(3) == 0, x }) },
+      2 => { let letters = ["abc", "a b", "aB", "Hello", "~!", "q", " x", "[]", "xyz?", "1+2"][r.below(10)].to_string(); let x = gen_extra(r, &mods, &keypool, true); p.push(PItem::Row { mods, row: r.below(5), to_mods, letters, disabled: r.below(3) == 0, x }) },
+      _ => { let mut x = gen_extra(r, &mods, &keypool, false); x.absorbing.clear(); p.push(PItem::RepeatOnly { mods, key: keypool[r.below(keypool.len())], disabled: r.below(2) == 0, x }) },
     }
   }
   p
@@ -191,12 +295,13 @@ pub fn gen_program(r: &mut Rng) -> Vec<PItem> {
 pub fn check_c13_program(p: &Vec<PItem>) -> Result<bool, String> {
   let text = program_json(p);
   let t2 = text.clone();
-  // a panic while loading is C14's business; for C13 the program is simply not comparable
-  let got = match std::panic::catch_unwind(move || load(&t2)) { Ok(Ok(l)) => l, Ok(Err(_)) => return Ok(false), Err(_) => return Ok(false) };
+  // a panic while loading a program WITHOUT meaning is C14's business only; a program that has a hand-written expansion must convert to it, and a panic is not that
+  let got = match std::panic::catch_unwind(move || load(&t2)) { Ok(Ok(l)) => l, Ok(Err(_)) => return Ok(false),
+    Err(_) => return match expand_by_hand(p) { Some(w) => Err(format!("the loader panicked on a program whose hand-written expansion has {} mappings ({})", w.len(), text)), None => Ok(false) } };
   let want = match expand_by_hand(p) { Some(w) => w, None => return Err(format!("the loader accepted a program that has no hand-written expansion (undefined alias / output alias not on the trigger side / letter without key / row too short): {}", text)) };
   if got.mappings.len() != want.len() { return Err(format!("{} mappings, the hand-written expansion has {} ({})", got.mappings.len(), want.len(), text)); }
-  for (i, w) in want.iter().enumerate() { let g = &got.mappings[i]; if g.from != w.from || g.to != w.to || g.repeat != w.repeat {
-    return Err(format!("mapping {}: got {:?} -> {:?} ({:?}), the hand-written expansion has {:?} -> {:?} ({:?})", i, g.from, g.to, g.repeat, w.from, w.to, w.repeat)); } }
+  for (i, w) in want.iter().enumerate() { let g = &got.mappings[i]; if g.from != w.from || g.to != w.to || g.repeat != w.repeat || g.absorbing != w.absorbing {
+    return Err(format!("mapping {}: got {:?} -> {:?} ({:?}, absorbing {:?}), the hand-written expansion has {:?} -> {:?} ({:?}, absorbing {:?})", i, g.from, g.to, g.repeat, g.absorbing, w.from, w.to, w.repeat, w.absorbing)); } }
   Ok(true)
 }
 
@@ -211,9 +316,15 @@ pub fn explore(prop: &str, secs: f64, seed: u64) -> i32 {
     for _ in 0..200 {
       n += 1;
       if prop == "C14" {
-        let text = gen_json(&mut r); let s = r.next();
+        let text = if n % 2 == 0 { gen_json(&mut r) } else { gen_mutated_json(&mut r) }; let s = r.next();
         if let Err(m) = check_c14(&text, s) {
           println!("WITNESS {{\"property\":\"C14\",\"json\":{:?},\"event_seed\":{},\"what\":{:?},\"cases_tried\":{}}}", text, s, m, n);
+          return 1;
+        }
+      } else if prop == "C11" {
+        let text = gen_json(&mut r); let s = r.next();
+        if let Err(m) = check_c11_file(&text, s) {
+          println!("WITNESS {{\"property\":\"C11\",\"json\":{:?},\"event_seed\":{},\"what\":{:?},\"cases_tried\":{}}}", text, s, m, n);
           return 1;
         }
       } else if prop == "C13" && n % 2 == 0 {
@@ -239,24 +350,34 @@ pub fn explore(prop: &str, secs: f64, seed: u64) -> i32 {
 
 // a program as JSON (for the witness file) and back
 fn mods_to_value(ms: &Vec<PMod>) -> serde_json::Value { serde_json::Value::Array(ms.iter().map(|m| match m { PMod::Alias(a) => serde_json::json!({"alias": a}), PMod::Key(k) => serde_json::json!({"key": format!("{:?}", k)}) }).collect()) }
+fn extra_to_value(x: &PExtra) -> serde_json::Value { serde_json::json!({"absorbing": mods_to_value(&x.absorbing), "special": match &x.special { None => serde_json::Value::Null,
+  Some(sp) => serde_json::json!({"mods": mods_to_value(&sp.mods), "key": format!("{:?}", sp.key), "letters": sp.letters, "delay": sp.delay, "interval": sp.interval}) }}) }
+fn value_to_extra(v: &serde_json::Value) -> PExtra { if v.is_null() { return PExtra::default(); }     // (witness files written before the repeat forms were added have no "x")
+  PExtra { absorbing: value_to_mods(&v["absorbing"]), special: if v["special"].is_null() { None } else { let sp = &v["special"];
+    Some(PSpec { mods: value_to_mods(&sp["mods"]), key: kc(&sp["key"]), letters: sp["letters"].as_str().unwrap().to_string(), delay: sp["delay"].as_i64().unwrap() as i32, interval: sp["interval"].as_i64().unwrap() as i32 }) } } }
 fn prog_to_value(p: &Vec<PItem>) -> serde_json::Value { serde_json::Value::Array(p.iter().map(|it| match it {
   PItem::AliasDef { name, keys } => serde_json::json!({"kind": "alias", "name": name, "keys": keys.iter().map(|k| format!("{:?}", k)).collect::<Vec<_>>()}),
-  PItem::Single { mods, key, to_mods, to_key, disabled } => serde_json::json!({"kind": "single", "mods": mods_to_value(mods), "key": format!("{:?}", key), "to_mods": mods_to_value(to_mods), "to_key": format!("{:?}", to_key), "disabled": disabled}),
-  PItem::Row { mods, row, to_mods, letters, disabled } => serde_json::json!({"kind": "row", "mods": mods_to_value(mods), "row": row, "to_mods": mods_to_value(to_mods), "letters": letters, "disabled": disabled}),
-  PItem::RepeatOnly { mods, key, disabled } => serde_json::json!({"kind": "repeat_only", "mods": mods_to_value(mods), "key": format!("{:?}", key), "disabled": disabled}),
+  PItem::Single { mods, key, to_mods, to_key, disabled, x } => serde_json::json!({"kind": "single", "mods": mods_to_value(mods), "key": format!("{:?}", key), "to_mods": mods_to_value(to_mods), "to_key": format!("{:?}", to_key), "disabled": disabled, "x": extra_to_value(x)}),
+  PItem::Row { mods, row, to_mods, letters, disabled, x } => serde_json::json!({"kind": "row", "mods": mods_to_value(mods), "row": row, "to_mods": mods_to_value(to_mods), "letters": letters, "disabled": disabled, "x": extra_to_value(x)}),
+  PItem::RepeatOnly { mods, key, disabled, x } => serde_json::json!({"kind": "repeat_only", "mods": mods_to_value(mods), "key": format!("{:?}", key), "disabled": disabled, "x": extra_to_value(x)}),
 }).collect()) }
 fn kc(v: &serde_json::Value) -> KeyCode { use std::str::FromStr; KeyCode::from_str(v.as_str().unwrap()).unwrap() }
 fn value_to_mods(v: &serde_json::Value) -> Vec<PMod> { v.as_array().unwrap().iter().map(|m| if let Some(a) = m.get("alias") { PMod::Alias(a.as_u64().unwrap() as usize) } else { PMod::Key(kc(&m["key"])) }).collect() }
 fn value_to_prog(v: &serde_json::Value) -> Vec<PItem> { v.as_array().unwrap().iter().map(|it| match it["kind"].as_str().unwrap() {
   "alias" => PItem::AliasDef { name: it["name"].as_u64().unwrap() as usize, keys: it["keys"].as_array().unwrap().iter().map(kc).collect() },
-  "single" => PItem::Single { mods: value_to_mods(&it["mods"]), key: kc(&it["key"]), to_mods: value_to_mods(&it["to_mods"]), to_key: kc(&it["to_key"]), disabled: it["disabled"].as_bool().unwrap() },
-  "row" => PItem::Row { mods: value_to_mods(&it["mods"]), row: it["row"].as_u64().unwrap() as usize, to_mods: value_to_mods(&it["to_mods"]), letters: it["letters"].as_str().unwrap().to_string(), disabled: it["disabled"].as_bool().unwrap() },
-  _ => PItem::RepeatOnly { mods: value_to_mods(&it["mods"]), key: kc(&it["key"]), disabled: it["disabled"].as_bool().unwrap() },
+  "single" => PItem::Single { mods: value_to_mods(&it["mods"]), key: kc(&it["key"]), to_mods: value_to_mods(&it["to_mods"]), to_key: kc(&it["to_key"]), disabled: it["disabled"].as_bool().unwrap(), x: value_to_extra(&it["x"]) },
+  "row" => PItem::Row { mods: value_to_mods(&it["mods"]), row: it["row"].as_u64().unwrap() as usize, to_mods: value_to_mods(&it["to_mods"]), letters: it["letters"].as_str().unwrap().to_string(), disabled: it["disabled"].as_bool().unwrap(), x: value_to_extra(&it["x"]) },
+  _ => PItem::RepeatOnly { mods: value_to_mods(&it["mods"]), key: kc(&it["key"]), disabled: it["disabled"].as_bool().unwrap(), x: value_to_extra(&it["x"]) },
 }).collect() }
 
 pub fn replay(prop: &str, text: &str) -> i32 {
   let v: serde_json::Value = serde_json::from_str(text).expect("json");
   let c = if v.get("counterexample").is_some() { v["counterexample"].clone() } else { v };
+  if prop == "C11" {
+    let j = c["json"].as_str().unwrap();
+    println!("layout file: {}", j);
+    return match check_c11_file(j, c["event_seed"].as_u64().unwrap_or(1)) { Ok(()) => { println!("NOT-REPRODUCED: the file is rejected, or the real loop never asks to wait longer than the longest delay / interval of the file"); 0 }, Err(m) => { println!("REPRODUCED: {}", m); 1 } };
+  }
   if prop == "C14" {
     let j = c["json"].as_str().unwrap();
     println!("layout file: {}", j);
